@@ -554,7 +554,7 @@ class JSONPathEnvironment:
             return self.is_truthy(left) or self.is_truthy(right)
         if operator == "==":
             return self._eq(left, right)
-        if operator == "!=":
+        if operator in ("!=", "<>"):
             return not self._eq(left, right)
         if operator == "<":
             return self._lt(left, right)
@@ -565,12 +565,22 @@ class JSONPathEnvironment:
         if operator == "<=":
             return self._lt(left, right) or self._eq(left, right)
         if operator == "in" and isinstance(right, (Mapping, Sequence)):
-            return left in right
+            return self._contains(right, left)
         if operator == "contains" and isinstance(left, (Mapping, Sequence)):
-            return right in left
+            return self._contains(left, right)
         if operator == "=~" and isinstance(right, re.Pattern) and isinstance(left, str):
             return bool(right.fullmatch(left))
         return False
+
+    def _contains(self, container: Union[Mapping[Any, Any], Sequence[Any]], item: object) -> bool:
+        if isinstance(container, str):
+            # Substring test. Only strings can be found in strings.
+            return isinstance(item, str) and item in container
+        try:
+            return item in container
+        except TypeError:
+            # `item` is not hashable, so it can't be a key in a mapping.
+            return False
 
     def _eq(self, left: object, right: object) -> bool:  # noqa: PLR0911
         if isinstance(right, NodeList):
@@ -589,15 +599,35 @@ class JSONPathEnvironment:
             return True
 
         # Remember 1 == True and 0 == False in Python
-        if isinstance(right, bool):
-            left, right = right, left
+        return self._eq_values(left, right)
 
-        if isinstance(left, bool):
-            return isinstance(right, bool) and left == right
+    def _eq_values(self, left: object, right: object) -> bool:
+        """JSON value equality. Booleans are not numbers, at any depth."""
+        if isinstance(left, bool) or isinstance(right, bool):
+            return isinstance(left, bool) and isinstance(right, bool) and left == right
+
+        if isinstance(left, Mapping) and isinstance(right, Mapping):
+            return len(left) == len(right) and all(
+                k in right and self._eq_values(v, right[k]) for k, v in left.items()
+            )
+
+        if (
+            isinstance(left, Sequence)
+            and isinstance(right, Sequence)
+            and not isinstance(left, str)
+            and not isinstance(right, str)
+        ):
+            return len(left) == len(right) and all(
+                self._eq_values(a, b) for a, b in zip(left, right)
+            )
 
         return left == right
 
     def _lt(self, left: object, right: object) -> bool:
+        if isinstance(left, bool) or isinstance(right, bool):
+            # Booleans are not numbers.
+            return False
+
         if isinstance(left, str) and isinstance(right, str):
             return left < right
 
